@@ -152,8 +152,16 @@ Theorem idle_monitor_sound kind st steps : idle_ok kind st steps = true -> idle_
 Proof. exact (fun H => idle_ok_sound kind steps st H). Qed.
 Print Assumptions idle_monitor_sound.
 
-(* a whole harness case: check_case reports no code 2 -> scenario_spec (one entry per CID after; idle runs idle; no key
-   removed or added by re-pinning, none added by a sweep; repin_clause resp. sync_clause for every entry) *)
+(* exactly one closest: for every (excluded peer, CID) about which every trusted candidate's isClosest answer was recorded (as many
+   trusted answers as trusted candidates, at least one candidate), exactly one of those answers is "closest" *)
+Theorem one_closest_monitor_sound members trusted cs :
+  one_closest_ok members trusted cs = true -> one_closest_spec members trusted cs.
+Proof. exact (one_closest_ok_sound members trusted cs). Qed.
+Print Assumptions one_closest_monitor_sound.
+
+(* a whole harness case: check_case reports no code 2 -> scenario_spec (one entry per CID after; idle runs idle; exactly one trusted candidate
+   closest; no key removed or added by re-pinning, none added by a sweep; repin_clause resp. sync_clause for every entry, with
+   "peers trusting each other" = all members trusted or the untrusted ones idle, "every candidate ran" = every trusted candidate) *)
 Theorem check_case_sound id dmin dmax rv hpt hct members untrusted ms ls st0l kind f steps cs :
   NoDup (map mpeer ms) ->
   (forall t, ~ In (id, 2%N, t)
@@ -171,7 +179,8 @@ Example c10_monitor_example :
   let ms := [mk_metric 1 (Some 10%N) 3600 true; mk_metric 2 (Some 20%N) 3600 true] in
   let cse (after1 : list pin) (logs2 : list N) : case :=
     (7%N, (1, 1, false, [(0,0);(1,1);(2,2)]%N, [(1,1);(2,2)]%N, [0;1;2]%N, @nil N, ms, @nil (N * list N),
-           [x0; x2], (0%N, 0%N, [(1%N, false, false, true, [1%N], after1); (2%N, false, false, true, logs2, after1)]), @nil cobs)) in
+           [x0; x2], (0%N, 0%N, [(1%N, false, false, true, [1%N], after1); (2%N, false, false, true, logs2, after1)]),
+           [(1, Some 0, 1, true); (2, Some 0, 1, false)]%N)) in
   NoDup (map mpeer ms) /\ check_case (cse [x1; x2] []) = [] /\
   check_case (cse [x0; x2] []) = [(7, 1, 0); (7, 2, 0)]%N /\ check_case (cse [x1; x2] [1%N]) = [(7, 1, 0); (7, 2, 0)]%N.
 Proof. cbv zeta. split; [simpl; repeat constructor; simpl; intuition discriminate|]. repeat split; vm_compute; reflexivity. Qed.
